@@ -260,10 +260,9 @@ func (lb *LoadBalancer) setupCircuitBreaker(cfg *config.Config) {
 		},
 	}
 
-	// Set defaults
-	if cbSettings.MaxRequests == 0 {
-		cbSettings.MaxRequests = 1
-	}
+	// Set defaults (an unset max_requests is left to the breaker, which then
+	// admits success_threshold trial requests - a default of 1 here would lock
+	// traffic out forever with success_threshold >= 2)
 	if cbSettings.Interval == 0 {
 		cbSettings.Interval = time.Minute
 	}
